@@ -3,6 +3,7 @@
   lookup to the next, so everything proved from it for ONE start holds after any sequence of lazy creations.
 -/
 import IocProofs.Lemmas.M2Inv
+import IocProofs.Lemmas.M2Term
 namespace Ioc.M2.Lc
 open Ioc Ioc.M2
 
@@ -40,3 +41,40 @@ theorem lookupsAfter_inv (sc : Scen) (wf : WF sc) (ns : List Nat) : ∀ (st : St
     exact ih _ (lookupAfter_inv sc wf st hi h.1 n) h.2
 
 end Ioc.M2.Lc
+
+namespace Ioc.M2
+open Ioc.M2.Term
+
+/-- a lookup after the start stops as well: within `fuelBound sc + 1` steps, from any quiescent stopped state -/
+theorem lookupAfter_terminates (sc : Scen) (st : St) (n : Nat) (hs : st.stack = []) (hnr : st.status ≠ .running) :
+    (lookupAfter sc st n).status ≠ .running := by
+  unfold lookupAfter
+  cases hst : st.status with
+  | running => exact absurd hst hnr
+  | done =>
+    simp only []
+    intro hr
+    have hri : RInv sc { st with status := .running, todo := [n], todoBoot := [], stage := .refresh } := by
+      intro _; simp only [TInv, hs]; exact tinvL_nil sc _ _ _
+    have h := run_bound sc (fuelBound sc + 1) _ hri hr
+    have h3 := mu_running sc _ hr
+    have hmu : mu sc { st with status := .running, todo := [n], todoBoot := [], stage := .refresh } ≤ fuelBound sc + 1 := by
+      simp only [mu, muRun, if_true, fuelBound, hs, List.length_nil, List.length_cons]
+      have : (sc.names.map (potAux sc st.l1 [])).sum ≤ (sc.names.map (work sc)).sum := by
+        exact sum_le_of_pointwise sc.names _ _ (fun x _ => potAux_le_work sc st.l1 [] x)
+      omega
+    omega
+  | failed w s =>
+    simp only []
+    intro hr
+    have hri : RInv sc { st with status := .running, todo := [n], todoBoot := [], stage := .refresh } := by
+      intro _; simp only [TInv, hs]; exact tinvL_nil sc _ _ _
+    have h := run_bound sc (fuelBound sc + 1) _ hri hr
+    have h3 := mu_running sc _ hr
+    have hmu : mu sc { st with status := .running, todo := [n], todoBoot := [], stage := .refresh } ≤ fuelBound sc + 1 := by
+      simp only [mu, muRun, if_true, fuelBound, hs, List.length_nil, List.length_cons]
+      have : (sc.names.map (potAux sc st.l1 [])).sum ≤ (sc.names.map (work sc)).sum := by
+        exact sum_le_of_pointwise sc.names _ _ (fun x _ => potAux_le_work sc st.l1 [] x)
+      omega
+    omega
+end Ioc.M2
